@@ -50,7 +50,7 @@ def run(replay=None):
     def one(chunk):
         text = "".join(f"{'lastref' if len(c) == 4 else 'scenario'} {c[0]} {c[1]} {c[2]}\n" for c in chunk)
         try:
-            p = subprocess.run([exe], input=text, stdout=subprocess.PIPE, stderr=subprocess.PIPE, text=True, timeout=1800, env=env)
+            p = subprocess.run([exe], input=text, stdout=subprocess.PIPE, stderr=subprocess.PIPE, text=True, errors="replace", timeout=1800, env=env)
             return chunk, p.stdout, p.stderr, p.returncode
         except subprocess.TimeoutExpired:
             return chunk, "", "TIMEOUT", -1
